@@ -167,4 +167,7 @@ def check(run):
         assumptions=["U2F operations have no consent step by design (presence is a caller-supplied argument): not quantified over here"])
     common.coq_build(ceremony.WCOQ_TARGETS)
     client_uv(run)
+    # the record of the selected credential is replaced / removed by another session while the consent prompt is on screen: the
+    # credential that was shown is the one that signs
+    run.cov["prompt_actions"] = ceremony.check_prompt_actions(run, ("C04",))
     run.cov["exhaustive"] = True
